@@ -57,7 +57,10 @@ theorem skipJElems_ok_iff (limit : Int) : ∀ (es : JElems) (opn : Nat),
     rw [skipJElems, cdepthElems]
     cases hv : skipJ limit opn v with
     | error e =>
-      have := (skipJ_ok_iff limit v opn).not.mp (by rw [hv]; simp)
+      have hneg : ¬ (cdepth v = 0 ∨ ((opn + cdepth v : Nat) : Int) ≤ limit) := fun hc => by
+        have := (skipJ_ok_iff limit v opn).mpr hc
+        rw [hv] at this
+        cases this
       simp only [reduceCtorEq, false_iff]
       omega
     | ok u =>
@@ -72,7 +75,10 @@ theorem skipJMembers_ok_iff (limit : Int) : ∀ (ms : JMembers) (opn : Nat),
     rw [skipJMembers, cdepthMembers]
     cases hv : skipJ limit opn v with
     | error e =>
-      have := (skipJ_ok_iff limit v opn).not.mp (by rw [hv]; simp)
+      have hneg : ¬ (cdepth v = 0 ∨ ((opn + cdepth v : Nat) : Int) ≤ limit) := fun hc => by
+        have := (skipJ_ok_iff limit v opn).mpr hc
+        rw [hv] at this
+        cases this
       simp only [reduceCtorEq, false_iff]
       omega
     | ok u =>
@@ -136,6 +142,18 @@ theorem storeMsg_ok {d : MsgX} {m : Msg} {fx : FieldX} {r : Except Err Msg} {m' 
   | error e => simp [storeMsg] at h
   | ok sub => exact ⟨sub, rfl⟩
 
+/-- a non-object never decodes as a message -/
+theorem dMsg_nonobj (C : JCodec) (D : DOpts) (X : SchemaX) (mi : Nat) (limit : Int) (v : JV) (m : Msg)
+    (hv : ∀ ms, v ≠ .obj ms) : dMsg C D X mi limit v ≠ .ok m := by
+  intro h
+  cases v with
+  | obj ms => exact hv ms rfl
+  | null | bool _ | num _ | str _ | arr _ =>
+    simp only [dMsg] at h
+    split at h
+    · cases h
+    · split at h <;> cases h
+
 mutual
 theorem dMsg_depth (C : JCodec) (D : DOpts) (X : SchemaX) : ∀ (v : JV) (mi : Nat) (limit : Int) (m : Msg),
     dMsg C D X mi limit v = .ok m → (jdepth D X mi v : Int) ≤ limit
@@ -148,105 +166,55 @@ theorem dMsg_depth (C : JCodec) (D : DOpts) (X : SchemaX) : ∀ (v : JV) (mi : N
       · cases h
       · have := dMembers_depth C D X ms mi (limit - 1) {} {} Msg.empty m (by omega) h
         omega
-  | .null, mi, limit, m, h | .bool _, mi, limit, m, h | .num _, mi, limit, m, h | .str _, mi, limit, m, h
-  | .arr _, mi, limit, m, h => by
-    rw [dMsg] at h
-    split at h
-    · cases h
-    · split at h <;> cases h
+  | .null, mi, limit, m, h => absurd h (dMsg_nonobj C D X mi limit _ m (by intro ms hh; cases hh))
+  | .bool _, mi, limit, m, h => absurd h (dMsg_nonobj C D X mi limit _ m (by intro ms hh; cases hh))
+  | .num _, mi, limit, m, h => absurd h (dMsg_nonobj C D X mi limit _ m (by intro ms hh; cases hh))
+  | .str _, mi, limit, m, h => absurd h (dMsg_nonobj C D X mi limit _ m (by intro ms hh; cases hh))
+  | .arr _, mi, limit, m, h => absurd h (dMsg_nonobj C D X mi limit _ m (by intro ms hh; cases hh))
 theorem dMembers_depth (C : JCodec) (D : DOpts) (X : SchemaX) : ∀ (ms : JMembers) (mi : Nat) (limit : Int) (sn so : Ints)
     (m0 m : Msg), 0 ≤ limit → dMembers C D X mi limit ms sn so m0 = .ok m → (jdMembers D X mi ms : Int) ≤ limit
   | .nil, _, _, _, _, _, _, h0, _ => by simp [jdMembers]; exact h0
   | .cons key v tl, mi, limit, sn, so, m0, m, h0, h => by
-    rw [dMembers] at h
+    rw [dMembers_cons] at h
     rw [jdMembers]
-    unfold dHead at h
-    cases hr : resolveJSON X (X.msg mi) key with
-    | badExt => simp [hr] at h
-    | unknown =>
-      simp only [hr] at h ⊢
-      by_cases hd : D.discard = true
-      · simp only [hd, if_true] at h ⊢
-        cases hs : skipJ limit 0 v with
-        | error e => simp [hs] at h
-        | ok u =>
-          simp only [hs] at h
-          have h1 := (skipJ_ok_iff limit v 0).mp (by rw [hs])
-          have h2 := dMembers_depth C D X tl mi limit sn so m0 m h0 h
+    cases hd : dHead D X (X.msg mi) limit key v sn so with
+    | error e => simp [hd] at h
+    | skip sn' =>
+      simp only [hd] at h
+      have h2 := dMembers_depth C D X tl mi limit sn' so m0 m h0 h
+      rcases dHead_skip_cases D X (X.msg mi) limit key v sn so sn' hd with ⟨hr, hdis, hs, _⟩ | ⟨fx, hr, hn, _⟩
+      · have h1 := (skipJ_ok_iff limit v 0).mp hs
+        simp only [hr, hdis, if_true]
+        omega
+      · simp only [hr, hn, if_true]
+        omega
+    | value fx sn' so' =>
+      simp only [hd] at h
+      obtain ⟨hr, hn⟩ := dHead_value_cases D X (X.msg mi) limit key v sn so sn' so' fx hd
+      simp only [hr, hn, Bool.false_eq_true, if_false]
+      cases hv : dFieldVal C D X mi fx limit m0 v with
+      | error e => simp [hv] at h
+      | ok m' =>
+        simp only [hv] at h
+        have h2 := dMembers_depth C D X tl mi limit sn' so' m' m h0 h
+        unfold dFieldVal at hv
+        cases hc : fx.f.card <;> simp only [hc] at hv ⊢
+        case repeated =>
+          obtain ⟨vs, hvs⟩ := storeList_ok hv
+          have h1 := dList_depth C D X v fx limit vs h0 hvs
+          split <;> simp_all <;> omega
+        case map =>
+          obtain ⟨vs, hvs⟩ := storeMap_ok hv
+          have h1 := dMap_depth C D X v fx limit _ vs h0 hvs
           omega
-      · simp [hd] at h
-    | found fx =>
-      simp only [hr] at h ⊢
-      by_cases hh : sn.has fx.f.num = true
-      · simp [hh] at h
-      · simp only [hh, if_false] at h
-        by_cases hn : (v.isNull && !fx.valueMsg && !fx.nullEnum) = true
-        · simp only [hn, if_true] at h ⊢
-          have h2 := dMembers_depth C D X tl mi limit _ so m0 m h0 h
-          omega
-        · simp only [hn, if_false] at h ⊢
-          cases hc : fx.f.card <;> simp only [hc] at h ⊢
-          case repeated =>
-            cases hv : storeList m0 fx (dList C D X fx limit v) with
-            | error e => simp [hv] at h
-            | ok m' =>
-              simp only [hv] at h
-              have h2 := dMembers_depth C D X tl mi limit _ so m' m h0 h
-              obtain ⟨vs, hvs⟩ := storeList_ok hv
-              have h1 := dList_depth C D X v fx limit vs h0 hvs
-              split <;> omega
-          case map =>
-            cases hv : storeMap m0 fx (dMap C D X fx limit (curVals m0.fields fx.f.num) v) with
-            | error e => simp [hv] at h
-            | ok m' =>
-              simp only [hv] at h
-              have h2 := dMembers_depth C D X tl mi limit _ so m' m h0 h
-              obtain ⟨vs, hvs⟩ := storeMap_ok hv
-              have h1 := dMap_depth C D X v fx limit _ vs h0 hvs
-              omega
-          all_goals
-            (cases ho : fx.oneofIdx with
-             | none =>
-               simp only [ho] at h
-               by_cases hk : fx.f.kind.isMessage = true
-               · simp only [hk, if_true] at h ⊢
-                 cases hv : storeMsg (X.msg mi) m0 fx (dMsg C D X fx.f.sub limit v) with
-                 | error e => simp [hv] at h
-                 | ok m' =>
-                   simp only [hv] at h
-                   have h2 := dMembers_depth C D X tl mi limit _ so m' m h0 h
-                   obtain ⟨sub, hsub⟩ := storeMsg_ok hv
-                   have h1 := dMsg_depth C D X v fx.f.sub limit sub hsub
-                   omega
-               · simp only [hk, if_false] at h ⊢
-                 cases hv : storeScalar (X.msg mi) m0 fx (dScalar C D fx v) with
-                 | error e => simp [hv] at h
-                 | ok m' =>
-                   simp only [hv] at h
-                   have h2 := dMembers_depth C D X tl mi limit _ so m' m h0 h
-                   omega
-             | some o =>
-               simp only [ho] at h
-               by_cases hso : so.has o = true
-               · simp [hso] at h
-               · simp only [hso, if_false] at h
-                 by_cases hk : fx.f.kind.isMessage = true
-                 · simp only [hk, if_true] at h ⊢
-                   cases hv : storeMsg (X.msg mi) m0 fx (dMsg C D X fx.f.sub limit v) with
-                   | error e => simp [hv] at h
-                   | ok m' =>
-                     simp only [hv] at h
-                     have h2 := dMembers_depth C D X tl mi limit _ _ m' m h0 h
-                     obtain ⟨sub, hsub⟩ := storeMsg_ok hv
-                     have h1 := dMsg_depth C D X v fx.f.sub limit sub hsub
-                     omega
-                 · simp only [hk, if_false] at h ⊢
-                   cases hv : storeScalar (X.msg mi) m0 fx (dScalar C D fx v) with
-                   | error e => simp [hv] at h
-                   | ok m' =>
-                     simp only [hv] at h
-                     have h2 := dMembers_depth C D X tl mi limit _ _ m' m h0 h
-                     omega)
+        all_goals
+          (by_cases hk : fx.f.kind.isMessage = true
+           · simp only [hk, if_true] at hv ⊢
+             obtain ⟨sub, hsub⟩ := storeMsg_ok hv
+             have h1 := dMsg_depth C D X v fx.f.sub limit sub hsub
+             omega
+           · simp only [hk, if_false]
+             omega)
 theorem dList_depth (C : JCodec) (D : DOpts) (X : SchemaX) : ∀ (v : JV) (fx : FieldX) (limit : Int) (vs : Vals),
     0 ≤ limit → dList C D X fx limit v = .ok vs →
       ((if fx.f.kind.isMessage then jdList D X fx.f.sub v else 0 : Nat) : Int) ≤ limit
@@ -256,12 +224,11 @@ theorem dList_depth (C : JCodec) (D : DOpts) (X : SchemaX) : ∀ (v : JV) (fx : 
     exact dElems_depth C D X es fx limit vs h0 h
   | .null, fx, limit, vs, h0, h | .bool _, fx, limit, vs, h0, h | .num _, fx, limit, vs, h0, h
   | .str _, fx, limit, vs, h0, h | .obj _, fx, limit, vs, h0, h => by
-    rw [dList] at h
-    cases h
+    simp [dList] at h
 theorem dElems_depth (C : JCodec) (D : DOpts) (X : SchemaX) : ∀ (es : JElems) (fx : FieldX) (limit : Int) (vs : Vals),
     0 ≤ limit → dElems C D X fx limit es = .ok vs →
       ((if fx.f.kind.isMessage then jdElems D X fx.f.sub es else 0 : Nat) : Int) ≤ limit
-  | .nil, fx, limit, vs, h0, _ => by simp [jdElems]; split <;> simpa using h0
+  | .nil, fx, limit, vs, h0, _ => by simp [jdElems]; exact h0
   | .cons v tl, fx, limit, vs, h0, h => by
     rw [dElems] at h
     rw [jdElems]
@@ -288,8 +255,7 @@ theorem dMap_depth (C : JCodec) (D : DOpts) (X : SchemaX) : ∀ (v : JV) (fx : F
     exact dEntries_depth C D X ms fx limit cur vs h0 h
   | .null, fx, limit, cur, vs, h0, h | .bool _, fx, limit, cur, vs, h0, h | .num _, fx, limit, cur, vs, h0, h
   | .str _, fx, limit, cur, vs, h0, h | .arr _, fx, limit, cur, vs, h0, h => by
-    rw [dMap] at h
-    cases h
+    simp [dMap] at h
 theorem dEntries_depth (C : JCodec) (D : DOpts) (X : SchemaX) : ∀ (ms : JMembers) (fx : FieldX) (limit : Int) (cur vs : Vals),
     0 ≤ limit → dEntries C D X fx limit ms cur = .ok vs → (jdEntries D X fx ms : Int) ≤ limit
   | .nil, _, _, _, _, h0, _ => by simp [jdEntries]; exact h0
